@@ -14,7 +14,8 @@ Reading that is formalised (per request, `reqOk`):
                      continues with a literal/parameter there (the lookup never backtracks, it only falls back
                      to the deepest wildcard it has seen);
   (P) params         every extracted (name, value) is `{name}` in the applied pattern at a position where the
-                     request has segment `value`;
+                     request has segment `value`, and every parameter position of the pattern is reported
+                     (`expectedParams`);
   (N) normalised     the reported normalised URL IS the applied declared pattern (which matches, by S);
   (D) dispatcher     the remedy answering through `DispatchOnRequest` is entitled to (global, or S);
   (G) globals        global remedies/diagnoses are the enabled global ones; `shouldDiagnose` is their disjunction
@@ -122,8 +123,24 @@ def cfgBoundaryMix (eps : List Endpoint) : Bool := eps.any fun e => boundaryMix 
 
 /-! ### the property, per request -/
 
+/-- The parameter map pattern `p` extracts from `u`: one Go-map assignment `name := segment` per `{name}`
+    position, left to right (a repeated name keeps the LAST segment; a URL segment that is itself written
+    `{x}` binds nothing, as in `lookupNode`). -/
+def expectedFrom : List (String × String) → Pattern → Url → List (String × String)
+  | ps, p :: q, u :: us =>
+    match p.seg with
+    | .par n => expectedFrom (if u.seg.isPar then ps else setParam n u.seg.text ps) q us
+    | _ => expectedFrom ps q us
+  | ps, _, _ => ps
+
+def expectedParams (p : Pattern) (u : Url) : List (String × String) := expectedFrom [] p u
+
+/-- (P) both ways: every reported `(name, value)` is `{name}` in the pattern at a position where the request
+    has segment `value`, AND every binding the pattern's parameter positions give is reported (no parameter
+    is dropped). -/
 def paramsOk (p : Pattern) (u : Url) (params : List (String × String)) : Bool :=
-  params.all fun kv => (p.zip u).any fun pu => pu.1.seg == .par kv.1 && pu.2.seg.text == kv.2
+  (params.all fun kv => (p.zip u).any fun pu => pu.1.seg == .par kv.1 && pu.2.seg.text == kv.2) &&
+  (expectedParams p u).all fun kv => params.contains kv
 
 /-- The declarations for one method and pattern, in the order they are written: ONE policy. -/
 def group (eps : List Endpoint) (method : String) (p : Pattern) : List Endpoint :=
